@@ -3,54 +3,56 @@
 -/
 import JP.Patch
 import JP.RelPointer
+import JP.Lemmas.SafetyAux
+import JP.Lemmas.SafetyAux2
 namespace JP.Lemmas
 open JP JP.Pointer
 
 theorem pointer_parse_safe (dec : EscDec) (ue : Bool) (s : Str) (err : Err)
     (h : Pointer.parse dec ue s = .error err) : err = .ptr ∨ err = .ptrIndex := by
-  sorry
+  exact sf_parse_err dec ue s err h
 
 theorem pointer_getitem_safe (v : J) (p : Part) (err : Err)
     (h : getitem v p = .error err) : err.isPointerResolution = true := by
-  sorry
+  exact sf_getitem_err v p err h
 
 theorem pointer_resolve_safe (doc : J) (ps : List Part) (err : Err)
     (h : resolveParts doc ps = .error err) : err.isPointerResolution = true := by
-  sorry
+  exact sf_resolveParts_err doc ps err h
 
 theorem pointer_exists_safe (doc : J) (ps : List Part) : ∃ b, existsIn doc ps = .ok b := by
-  sorry
+  exact sf_existsIn_ok doc ps
 
 theorem pointer_resolveParent_safe (doc : J) (ps : List Part) (err : Err)
     (h : resolveParent doc ps = .error err) : err.isPointerResolution = true := by
-  sorry
+  exact sf_resolveParent_err doc ps err h
 
 theorem pointer_join_safe (dec : EscDec) (ps : List Part) (other : Str) (err : Err)
     (h : truediv dec ps other = .error err) : err = .ptr ∨ err = .ptrIndex := by
-  sorry
+  exact sf_truediv_err dec ps other err h
 
 theorem pointer_fromParts_safe (dec : EscDec) (ue : Bool) (ps : List Part) (err : Err)
     (h : fromParts dec ue ps = .error err) : err = .ptr := by
-  sorry
+  exact sf_fromParts_err dec ue ps err h
 
 theorem rel_parse_safe (dec : EscDec) (ue : Bool) (s : Str) (err : Err)
     (h : RelPointer.parse dec ue s = .error err) : err = .relSyntax ∨ err = .ptr ∨ err = .ptrIndex := by
-  sorry
+  exact sf_rel_parse_err dec ue s err h
 
 theorem rel_apply_safe (dec : EscDec) (ue : Bool) (r : RelPointer.Rel) (base : List Part) (err : Err)
     (h : RelPointer.applyTo dec ue r base = .error err) : err = .relIndex ∨ err = .ptr := by
-  sorry
+  exact sf_rel_apply_err dec ue r base err h
 
 theorem patch_build_safe (dec : EscDec) (ue : Bool) (ops : J) (err : Err)
     (h : Patch.build dec ue ops = .error err) : err = .patch := by
-  sorry
+  exact sf_build_err dec ue ops err h
 
 theorem patch_applyOp_safe (doc : J) (op : Patch.Op) (err : Err)
     (h : Patch.applyOp doc op = .error err) : err.isBuiltin = false := by
-  sorry
+  exact sf_ok_not_builtin (sf_applyOp_err doc op err h)
 
 theorem patch_apply_safe (ops : List Patch.Op) (doc : J) (err : Err)
     (h : Patch.apply ops doc = .error err) : err = .patch ∨ err = .patchTest := by
-  sorry
+  exact sf_apply_err ops doc err h
 
 end JP.Lemmas
